@@ -251,6 +251,10 @@ ROUND10 = {
 }
 # engines and rule families added in the session of round 11 (DESIGN 8.5, round 11)
 ROUND11 = {
+ "C05": "E13 waited-channel-stable for the per-connection senders (from C19)",
+ "C08": "E13 waited-channel-stable for xstar/xbus (from C19; found D17)",
+ "C18": "E13 waited-channel-stable (from C19)",
+ "C19": "E13 WAITED-CHANNEL-STABLE: every channel-typed field some function parks on (blocking receive/send/select arm read from the field) is replaced only in a step that wakes the waiters (close of a channel of the same object or of the old channel, Broadcast; must-pass to every return), during construction (fresh object, fresh-parameter helpers), or - for send-only waiters - with the old queue drained (found D17)",
  "C10": "E12 nil-safety (from C12)",
  "C11": "E12 nil-safety (from C12)",
  "C12": "E12 NILSAFE: forward must-non-nil dataflow per function over the fields the module itself treats as optional (nil tests / nil stores) and over maps not made at every creation, with entry facts from all call sites and closure creations (greatest fixpoint), kill on calls that may clear, error-checked results, companion fields and correlated merges",
